@@ -465,6 +465,7 @@ class Evaluator:
         self.eqsubst = {}
         self.order = {}  # (keyA, keyB) -> 'lt' | 'eq' | 'gt'   (facts assumed by the rule: ORD enumeration)
         self.facts = {}  # cond key -> bool
+        self.faults = []  # (kind, ast node, text, base key): constant subscripts outside a known shape
 
     def assume_order(self, a, b, rel):
         ka, kb = key(a), key(b)
@@ -1227,7 +1228,11 @@ class Evaluator:
             step = self.expr(n.slice.step, st) if n.slice.step is not None else None
             return self.getslice(base, lo, hi, step)
         idx = self.expr(n.slice, st)
-        return self.getitem(base, idx, st)
+        r = self.getitem(base, idx, st)
+        if isinstance(r, Opaque) and r.kind in ("indexerror", "keyerror") and isinstance(n.ctx, ast.Load):
+            # a constant subscript outside a sequence / dict whose shape is known on this path
+            self.faults.append((r.kind, n, r.text, key(base)[:80]))
+        return r
 
     def getslice(self, base, lo, hi, step):
         lc = None if lo is None else num_const(lo)
